@@ -1,0 +1,50 @@
+//! Verification accessor for `worker/streamer.rs` (mounted there as a child module under
+//! `#[cfg(it4innovations_hyperqueue_verif)]`): runs the production `stream_writer` on an explicit queue of
+//! `StreamerMessage`s, so that the harness controls every header field (time stamps included).
+use super::*;
+
+/// What the harness may put into the queue.
+pub enum VerifMessage {
+    Write { header: StreamChunkHeader, data: Vec<u8> },
+    Flush,
+}
+
+/// Runs the production `stream_writer` for `dir` with a fresh queue of the production capacity, feeds it
+/// `messages` in order, closes the queue and waits for the writer to end. The writer picks the file name.
+pub async fn run_stream_writer(
+    server_uid: &str,
+    worker_id: WorkerId,
+    dir: &Path,
+    messages: Vec<VerifMessage>,
+) -> crate::Result<()> {
+    let streamer_ref = StreamerRef::new(server_uid, worker_id);
+    let (sender, receiver) = channel(STREAMER_BUFFER_SIZE);
+    let feeder = async move {
+        for message in messages {
+            match message {
+                VerifMessage::Write { header, data } => {
+                    if sender
+                        .send(StreamerMessage::Write { header, data })
+                        .await
+                        .is_err()
+                    {
+                        return;
+                    }
+                }
+                VerifMessage::Flush => {
+                    let (tx, rx) = oneshot::channel();
+                    if sender.send(StreamerMessage::Flush(tx)).await.is_err() {
+                        return;
+                    }
+                    let _ = rx.await;
+                }
+            }
+        }
+    };
+    let (result, ()) = tokio::join!(stream_writer(&streamer_ref, dir, receiver), feeder);
+    result
+}
+
+pub fn streamer_buffer_size() -> usize {
+    STREAMER_BUFFER_SIZE
+}
